@@ -241,9 +241,9 @@ func TestVerifC02Sched(t *testing.T) {
 		return
 	}
 	deadline := rep.Deadline(10 * time.Minute)
-	for _, p := range parts {
+	for pi, p := range parts {
 		R := rep.New("C02", p.name())
-		e := &sched.Explorer{Bound: bound, Shard: shard, NShards: nsh, ShardDepth: 2, Deadline: deadline}
+		e := &sched.Explorer{Bound: bound, Shard: shard, NShards: nsh, ShardDepth: 2, Deadline: rep.Share(deadline, pi, len(parts))}
 		e.Run = func(prefix []int, expect []string) *sched.Exec {
 			x, _ := c02sExec(t, p, prefix, expect, false)
 			return x
